@@ -4,6 +4,8 @@ From Coq Require Import ZArith List Bool Arith Lia Permutation Sorted.
 Require Import Yui.Model.Pivot.
 Import ListNotations.
 
+Ltac splits := repeat match goal with |- _ /\ _ => split end.
+
 (* ------------------------------------------------------------------------------------------------ *)
 (* list helpers                                                                                     *)
 (* ------------------------------------------------------------------------------------------------ *)
@@ -288,7 +290,7 @@ Qed.
 Lemma list_max_ge : forall (f : nat -> nat) l x, In x l -> f x <= list_max (map f l).
 Proof.
   intros f l x. induction l as [|y r IH]; intros H; [destruct H|].
-  cbn [map list_max]. destruct H as [H|H]; [subst; lia | specialize (IH H); lia].
+  cbn [map]. unfold list_max in *. cbn [fold_right]. destruct H as [H|H]; [subst; lia | specialize (IH H); lia].
 Qed.
 
 (* Lemma add (DESIGN.md appendix A.1) *)
